@@ -19,6 +19,25 @@ extern "C" {
 #include "crypto/cryptoApi.h"
 }
 
+// ------------------------------------------------------------------------------------------------ work bound
+// Deterministic stand-in for "bounded running time" in the targets that reach password-based key derivation:
+// the target is linked with ld --wrap=psSha1Final and defines C09_WORK_BOUND = the largest number of SHA-1
+// finalisations one input may cause.  PKCS#5/#12 derive keys with iteration counts taken from the input; a
+// parser that accepts any count (2^31-1) exceeds the bound after a few seconds, independent of machine load,
+// whereas the wall-clock -timeout is kept only as a backstop for loops that do not hash.
+#ifdef C09_WORK_BOUND
+extern "C" void __real_psSha1Final(psSha1_t *, unsigned char *);
+namespace c09 { static uint64_t g_sha1_finals = 0; }
+extern "C" void __wrap_psSha1Final(psSha1_t *md, unsigned char *hash) {
+    if (++c09::g_sha1_finals > (uint64_t) (C09_WORK_BOUND))
+        throw vf::Fail{ "work-bound:sha1-finalisations", vf::fmt("more than %llu SHA-1 finalisations for one input: key derivation with an unbounded, input-chosen iteration count", (unsigned long long) (C09_WORK_BOUND)) };
+    __real_psSha1Final(md, hash);
+}
+# define C09_WORK_RESET() (c09::g_sha1_finals = 0)
+#else
+# define C09_WORK_RESET() ((void) 0)
+#endif
+
 namespace c09 {
 using vf::fmt;
 
